@@ -345,6 +345,18 @@ def byte_trees(ctx, names=('utf8', 'utf8x4', 'utf8x4b', 'mixed', 'mixedlenient')
     return files
 
 
+def parser_graph(ctx):
+    """the control-state graph of the automaton: one replay vector (two, with the completed text) per transition"""
+    chars = ' \n[]{},:"\\/bfnrtu0189-+.eEaAdDCFxG\x1f\x7f\u00e9\u20ac\U0001F600lst'
+    alpha = '{' + ', '.join(str(ord(c)) for c in sorted(set(chars))) + '}'
+    outs = []
+    for name, opts, depth in [('strict', models.STRICT, 2 if ctx.quick else 3), ('lenient', 'AllOpts \\ {Strict}', 1 if ctx.quick else 2)]:
+        r = ctx.mc(f'pgraph_{name}_{ctx.tier}', 'MC_ParserGraph', {'Alphabet': alpha, 'OptSet': opts}, {'MaxDepth': depth},
+                   ['Viable', 'OneCharPerStep', 'StackIsNesting', 'ErrorAtLastChar'], spec='GSpec', extra=['VIEW View'], workers=8)
+        outs.append(r['out'])
+    return outs
+
+
 STRICT_TREES = ['struct', 'lit', 'num', 'numtop', 'numobj', 'str', 'hex', 'tokens', 'nest', 'ws', 'strpad', 'keypad', 'numpad']
 SURR_TREES = ['surr', 'surrkey', 'surropen']
 
@@ -352,7 +364,7 @@ SURR_TREES = ['surr', 'surrkey', 'surropen']
 def c01(ctx):
     # the surrogate trees run under all four option records: their strict runs belong to C01 (an unpaired
     # surrogate escape is rejected in strict mode), the harness attributes lenient runs to C12
-    files = parser_trees(ctx, STRICT_TREES + SURR_TREES) + byte_trees(ctx)
+    files = parser_trees(ctx, STRICT_TREES + SURR_TREES) + byte_trees(ctx) + parser_graph(ctx)
     ctx.replay(files, ['C01.'])
     parser_trace(ctx, ['C01.'])
     sweeps(ctx, ['raw_str', 'raw_key', 'esc_ascii', 'esc_u', 'esc_pair', 'esc_pair2', 'esc_hexchar'], 'C01.sweep',
@@ -360,7 +372,7 @@ def c01(ctx):
 
 
 def c02(ctx):
-    files = parser_trees(ctx, STRICT_TREES + SURR_TREES)
+    files = parser_trees(ctx, STRICT_TREES + SURR_TREES) + parser_graph(ctx)
     ctx.replay(files, ['C02.'])
     parser_trace(ctx, ['C02.'])
     sweeps(ctx, ['raw_str', 'raw_key', 'esc_ascii', 'esc_u', 'esc_u_key', 'esc_pair', 'esc_pair2', 'combine', 'esc_hexchar'], 'C02.sweep',
@@ -371,19 +383,19 @@ def c02(ctx):
 
 
 def c05(ctx):
-    files = parser_trees(ctx, ['struct', 'tokens', 'nest', 'str', 'numobj', 'strpad', 'keypad', 'numpad'] + SURR_TREES)
+    files = parser_trees(ctx, ['struct', 'tokens', 'nest', 'str', 'numobj', 'strpad', 'keypad', 'numpad'] + SURR_TREES) + parser_graph(ctx)
     ctx.replay(files, ['C05.'])
     parser_trace(ctx, ['C05.'])
 
 
 def c07(ctx):
-    files = parser_trees(ctx, STRICT_TREES + SURR_TREES) + byte_trees(ctx)
+    files = parser_trees(ctx, STRICT_TREES + SURR_TREES) + byte_trees(ctx) + parser_graph(ctx)
     ctx.replay(files, ['C07.'])
     parser_trace(ctx, ['C07.'])
 
 
 def c12(ctx):
-    files = parser_trees(ctx, SURR_TREES + ['struct', 'str', 'hex'])
+    files = parser_trees(ctx, SURR_TREES + ['struct', 'str', 'hex']) + parser_graph(ctx)
     ctx.replay(files, ['C12.'])
     parser_trace(ctx, ['C12.'])
     sweeps(ctx, ['esc_u', 'esc_pair', 'raw_str', 'esc_ascii'], 'C12.sweep',
@@ -397,7 +409,7 @@ def nest_families(ctx):
 
 
 def c03(ctx):
-    files = parser_trees(ctx, ['struct', 'num', 'str', 'hex', 'nest', 'surr', 'surropen'])
+    files = parser_trees(ctx, ['struct', 'num', 'str', 'hex', 'nest', 'surr', 'surropen']) + parser_graph(ctx)
     r = nest_families(ctx)
     # the nesting / length families are run in an optimised AND in an unoptimised build of the crate: the stack bound must
     # not depend on the optimiser turning recursion into loops
@@ -593,7 +605,7 @@ def nav_values(ctx):
 
 
 def c11(ctx):
-    files = parser_trees(ctx, ['struct', 'tokens', 'nest', 'numobj', 'keypad', 'surrkey']) + nav_values(ctx)
+    files = parser_trees(ctx, ['struct', 'tokens', 'nest', 'numobj', 'keypad', 'surrkey']) + nav_values(ctx) + parser_graph(ctx)
     if ctx.quick:
         consts = {'Keys': '{<<97>>}', 'Leaves': '{VNull, VNum(<<49>>)}'}
     else:
